@@ -537,7 +537,10 @@ Proof.
   { unfold extent, lshape, np_min, np_max. cbn [map fst snd fold_left nisnan RR nltb].
     unfold Rltb.
     repeat match goal with
-           | |- context [Rlt_dec ?u ?v] => destruct (Rlt_dec u v); try (exfalso; lra)
+           | |- context [Rlt_dec ?u ?v] =>
+               lazymatch u with context [Rlt_dec _ _] => fail | _ => idtac end;
+               lazymatch v with context [Rlt_dec _ _] => fail | _ => idtac end;
+               destruct (Rlt_dec u v); try (exfalso; lra)
            end.
     reflexivity. }
   exists (0, 2), (0, 2). split; [exact E|].
